@@ -316,6 +316,10 @@ func keyPool(r *simrt.Rand, weird bool) [][]byte {
 			pool[len(pool)-1] = append([]byte("p"), bytesRepeat('x', i)...)
 		}
 	}
+	if r.Chance(0.05) {
+		// a key larger than a page (or than the compaction buffer) that sorts first
+		pool = append(pool, append([]byte("!"), bytesRepeat('h', pick(r, []int{4096, 5000, 9000, 33000}))...))
+	}
 	return pool
 }
 
